@@ -398,8 +398,11 @@ def translate(path, lib, modname):
                 if list(sig) != params:
                     raise Unsupported(f"{cls}.{name}: parameters {params} differ from the signature table")
                 for p, dflt in defaults.items():
+                    # (the flow-equation type defaults to the documented variant, the same in both engines and in the
+                    # abstract interface of engines/core.py)
+                    doc = {("get_ramp_flow", "type"): "out", ("get_simplifiedramp_flow", "type"): "limited"}
                     ok = isinstance(dflt, ast.Constant) and (
-                        dflt.value is None or (sig[p] == "STR" and isinstance(dflt.value, str)))
+                        dflt.value is None or (sig[p] == "STR" and dflt.value == doc.get((name, p))))
                     if not ok:
                         raise Unsupported(f"{cls}.{name}: default of {p}")
                 for p, t in sig.items():
